@@ -1034,6 +1034,9 @@ class FortranFile:
             new_line = prev_line[:start_col] + text + prev_line[end_col:]
             self.contents_split[start_line] = new_line
             self.contents_pp[start_line] = new_line
+            # Macro substitution can turn any line into anything
+            if self.preproc:
+                return True
             # What the line defined before the edit is gone afterwards
             return check_change_reparse(
                 start_line, prev_line
